@@ -88,6 +88,13 @@ func genRangeParams(r *rand.Rand) (start, stop, step *big.Int, shape string) {
 	return
 }
 
+// convBoundaryFloats are integral floats around the edges of int64 and uint64.
+var convBoundaryFloats = []float64{
+	9223372036854775808.0, -9223372036854775808.0, 9223372036854777856.0, -9223372036854777856.0,
+	9223372036854774784.0, -9223372036854774784.0, 18446744073709551616.0, -18446744073709551616.0,
+	1e19, -1e19, 1e300, -1e300, math.MaxFloat64, -math.MaxFloat64,
+}
+
 var reRange = regexp.MustCompile(`^range\((-?\d+)(?:, (-?\d+))?(?:, (-?\d+))?\)$`)
 
 // rangeKeyClass separates ranges whose span stop-start (±1) is not a machine integer: every wrong
@@ -278,6 +285,18 @@ func famRange(e *env, r *rand.Rand) {
 		addFloat(float64(r.Intn(9)-4) + 0.25)
 		addFloat(specialFloats[r.Intn(len(specialFloats))])
 		addFloat(genFloat(r).v)
+		// integral floats at and beyond the int64 conversion boundary: membership must not go through a
+		// wrapping or saturating float->int64 conversion (2^63 is not an element of any int64 range)
+		nearExtreme := func(x *big.Int) bool {
+			return new(big.Int).Sub(x, minI64).CmpAbs(bi(8)) <= 0 || new(big.Int).Sub(maxI64, x).CmpAbs(bi(8)) <= 0
+		}
+		if L.Sign() > 0 && (nearExtreme(ex.at(bi(0))) || nearExtreme(ex.at(new(big.Int).Sub(L, bigOne)))) {
+			for _, f := range convBoundaryFloats {
+				addFloat(f)
+			}
+		} else {
+			addFloat(convBoundaryFloats[r.Intn(len(convBoundaryFloats))])
+		}
 		for _, c := range cands {
 			c := c
 			neg := r.Intn(4) == 0
